@@ -86,13 +86,15 @@ type Ctx struct {
 	MapOrder  bool
 	MapOrders bool
 
-	globals  map[*ssa.Global]*Value
-	atomics  map[*Value]Value // sync/atomic cells (by address)
-	stack    []string
-	Steps    int
-	MaxSteps int
-	Funcs    map[string]int
-	inInit   int
+	globals   map[*ssa.Global]*Value
+	atomics   map[*Value]Value // sync/atomic cells (by address)
+	syncMaps  map[*Value]interface{}
+	syncOrder map[*Value]*[]string
+	stack     []string
+	Steps     int
+	MaxSteps  int
+	Funcs     map[string]int
+	inInit    int
 
 	pc       []*smt.Term
 	prefix   []uint64
